@@ -34,6 +34,11 @@ var c14rt = Register("C14", "C14.roundtrip", func(a c14RTArgs) *Violation {
 		}
 	}
 	form, neg, coef, exp := d.Decompose(buf)
+	if buf == nil {
+		if v := ownedBytes("Decompose("+a.V.String()+", nil)", coef, func() []byte { _, _, c, _ := d.Decompose(nil); return c }); v != nil {
+			return v
+		}
+	}
 	switch n.Class {
 	case ref.NaN:
 		if form != 2 {
@@ -218,7 +223,16 @@ func genParts(t *rapid.T) c14PartsArgs {
 		c.Add(c, bi(int64(ir(t, 1, 9, "small"))))
 	}
 	a.Coef = c.Bytes()
-	if lz := ir(t, 0, 6, "leadingZeroBytes"); lz > 2 {
+	switch lz := ir(t, 0, 8, "leadingZeroBytes"); {
+	case lz >= 7:
+		// zero-padded up to one of the lengths at which Compose changes its path (16/17, 32/33 bytes) and beyond
+		want := []int{16, 17, 24, 32, 33, 34, 40, 64, 100}[ir(t, 0, 8, "padTo")]
+		if want > len(a.Coef) {
+			a.Coef = append(make([]byte, want-len(a.Coef)), a.Coef...)
+		}
+	case lz == 6:
+		a.Coef = append(make([]byte, ir(t, 1, 48, "pad")), a.Coef...)
+	case lz > 2:
 		a.Coef = append(make([]byte, lz-2), a.Coef...)
 	}
 	nd := ref.DecLen(c)
